@@ -727,7 +727,15 @@ class SSHChannel(Generic[AnyStr], SSHPacketHandler):
                                UInt32(self._recv_window),
                                UInt32(self._recv_pktsize), *args, handler=self)
 
-        return await self._open_waiter
+        packet = await self._open_waiter
+
+        # The connection may have been cleaned up after the open
+        # confirmation was processed but before this task resumed
+        if not self._conn:
+            raise ChannelOpenError(OPEN_CONNECT_FAILED,
+                                   'SSH connection closed')
+
+        return packet
 
     def send_packet(self, pkttype: int, *args: bytes) -> None:
         """Send a packet on the channel"""
